@@ -273,8 +273,38 @@ def builder(prog, chk):
     bb = prog.bodies[MBK + "build"]
     bog = Origins(prog, bb)
     names = [bog.callee_name(t) for _, t in bb.calls()]
-    ok = any(n.startswith("std::vec::from_elem") for n in names) and any(n.endswith("MessageBuilder::<'a>::write_into") for n in names)
-    chk.ob("build", "build() = zeroed buffer + write_into", ok, how="call sites")
+    # ... on EVERY path: each return state of build() has serialised through write_into exactly once, into a buffer of the
+    # length it returns (write_into summarised; what it writes is decided by the rules above).  A path that answers from
+    # anything else - a cache, a second serialiser - is a third writer that nothing compares with write_into.
+    from absint.interp import event
+    from absint.models import RESULT
+    it = Interp(prog, M, INVARIANTS)
+
+    def m_write_into(c):
+        dest = c.deref(c.args[1])
+        event(c.st, "write_into", dest.len if isinstance(dest, Seq) else None)
+        c.havoc_mut_args()
+        n_ = c.it.fresh_num(c.st, 20, None, "wrote")
+        return [(c.st, Enum(RESULT, {0: Struct({0: n_})})), (c.st.copy(), Enum(RESULT, {1: Struct({0: TOP})}))]
+    it.local_models[MBK + "write_into"] = m_write_into
+    fr = Frame("E[bld]", prog.bodies[MBK + "into_owned"], 0, frozenset())
+    st = State()
+    st.cells[it.cell_of(fr, 1)] = it.top_of(st, bb, bb.locals[1]["ty"], hint="a1", region_prefix=fr.id + ":a1")
+    st.cells["ghost:trace"] = Trace()
+    n_states = 0
+    try:
+        for s2, r2 in it.call_local(st, fr, 9001, MBK + "build", [st.cells[it.cell_of(fr, 1)]], {"span": bb.span}):
+            if s2.sys.bottom or not s2.sys.feasible():
+                continue
+            n_states += 1
+            tr = s2.cells.get("ghost:trace")
+            evs = [e for e in (tr.ev if isinstance(tr, Trace) else ()) if e[0] == "write_into"]
+            ok = len(evs) == 1 and isinstance(r2, Seq) and evs[0][1] is not None and s2.sys.entails_eq(r2.len - evs[0][1])
+            chk.ob("build", "every return of build() hands out the buffer one write_into call filled (same length, one call)", ok, where=bb.loc(),
+                   detail="write_into calls on the path: %d; returned %r" % (len(evs), r2), how="E2 return state with write_into summarised")
+    except FailClosed as e:
+        chk.fail("build", "analysis of build() failed closed", detail=str(e))
+    chk.floor("build-return-states", n_states, 1)
     # into_owned is element-wise and order preserving; clone is derived
     io = prog.bodies[MBK + "into_owned"]
     iog = Origins(prog, io)
